@@ -89,8 +89,15 @@ def _marker_template(origin: str, name: str) -> str:
     return body
 
 
-def plant_dir(path: str, origin: str, names: typing.List[str], distractors: typing.List[str], shadows: typing.Sequence[str] = ()) -> None:
+def plant_dir(path: str, origin: str, names: typing.List[str], distractors: typing.List[str], shadows: typing.Sequence[str] = (), dir_names: typing.Sequence[str] = ()) -> None:
     os.makedirs(os.path.join(path, "inc"), exist_ok=True)
+    for dn in dir_names:
+        # a DIRECTORY whose name looks like the template of a class (a folder of partials kept next to the templates):
+        # a directory is never a template
+        if dn not in names and dn not in distractors:
+            os.makedirs(os.path.join(path, dn + ".j2"), exist_ok=True)
+            with open(os.path.join(path, dn + ".j2", "part.j2"), "w", encoding="utf-8") as f:
+                f.write("PART %s/%s\n" % (origin, dn))
     os.makedirs(os.path.join(path, "zzz", "deep"), exist_ok=True)
     for n in names:
         with open(os.path.join(path, n + ".j2"), "w", encoding="utf-8") as f:
@@ -228,6 +235,7 @@ def run_case(case: dict, ctx: dict) -> dict:
             "d2": d2,
             "distractors": r.subset(DISTRACTORS, 1, 3),
             "shadows": r.choice([[], [], ["parts"], ["Parts", "zz"], ["parts/deeper", "0old"]]),
+            "dir_names": r.subset(CLASS_TEMPLATES, 1, 2) if r.chance(1, 3) else [],
             "enum_seed": r.below(1 << 30) + 1,
             "lookups_seed": r.below(1 << 30),
             "additions": adds,
@@ -260,7 +268,7 @@ def run_case(case: dict, ctx: dict) -> dict:
     for origin, names in (("d1", plan.get("d1")), ("d2", plan.get("d2"))):
         if names is not None:
             p = os.path.join(world.tpl_dir, origin)
-            plant_dir(p, origin, list(names), plan["distractors"] if origin == "d1" else [], plan.get("shadows") or ())
+            plant_dir(p, origin, list(names), plan["distractors"] if origin == "d1" else [], plan.get("shadows") or (), plan.get("dir_names") or ())
             dirs.append(p)
     user_names = None  # type: typing.Optional[typing.Dict[str, str]]
     if dirs:
@@ -467,9 +475,9 @@ def run_case(case: dict, ctx: dict) -> dict:
                         )
             # a fault while reading the user's template (not valid UTF-8 - a Latin-1 copyright sign in a comment; an I/O
             # error) is an error: the same-named built-in template must never be used silently in its place
-            if policy == ResourceSearchPolicy.FIND_ALL and plan.get("unreadable_user_template"):
-                victim = sorted(builtin_names)[plan["unreadable_user_template"] % len(builtin_names)]
-                vpath = os.path.join(dirs[0], victim + ".j2")
+            victim = sorted(builtin_names)[plan.get("unreadable_user_template", 0) % len(builtin_names)]
+            vpath = os.path.join(dirs[0], victim + ".j2")
+            if policy == ResourceSearchPolicy.FIND_ALL and plan.get("unreadable_user_template") and not os.path.isdir(vpath):
                 saved = open(vpath, "rb").read() if os.path.exists(vpath) else None
                 with open(vpath, "wb") as f:
                     f.write(b"{# \xa9 ACME #}\nUSER " + victim.encode() + b"\n")
@@ -490,6 +498,22 @@ def run_case(case: dict, ctx: dict) -> dict:
                     else:
                         with open(vpath, "wb") as f:
                             f.write(saved)
+            # a class whose chain holds NO template of the user set: under FIND_ALL the built-in set is all there is for it
+            # (both readings of the statement agree), so it resolves exactly as it would without any user directory; under
+            # FIND_FIRST the user set is the only set
+            user_only = {k for k in (user_names or {})}
+            for c in sorted({type(v) for v in pool} | {getattr(pydsdl, n) for n in CLASS_TEMPLATES if hasattr(pydsdl, n)}, key=lambda x: x.__name__):
+                if model_resolve(c, user_only) is not None:
+                    continue
+                want = model_resolve(c, builtin_names) if policy == ResourceSearchPolicy.FIND_ALL else None
+                try:
+                    res = loader.type_to_template(c)
+                except Exception as ex:  # pylint: disable=broad-except
+                    res = "raised %s" % type(ex).__name__
+                evaluations += 1
+                got = os.path.splitext(os.path.basename(str(res)))[0] if res is not None else None
+                if got != want or (res is not None and any(str(res).startswith(d + os.sep) for d in dirs)):
+                    violation("type-to-template-without-user-template-in-chain:%s" % policy.name, {"class": c.__name__, "got": str(res), "want": want, "d1": plan.get("d1"), "d2": plan.get("d2"), "dir_names": plan.get("dir_names"), "lang": lang})
             # exact class template present in the user set: user wins under both policies
             for n in sorted(set(plan.get("d1") or []) | set(plan.get("d2") or [])):
                 cls = getattr(pydsdl, n, None)
